@@ -369,6 +369,7 @@ func (u *Unit) step(st *State, fr *Frame, in ssa.Instruction, pred *ssa.BasicBlo
 			u.cellStore(fr, a.Cell, v)
 		} else {
 			u.heapWriteChecks(st, fr, x, a.T, x.Val.Type())
+			u.chanStore(st, a.T, v)
 			u.store(st, a.T, x.Val.Type(), v)
 		}
 	case *ssa.UnOp:
@@ -456,6 +457,7 @@ func (u *Unit) step(st *State, fr *Frame, in ssa.Instruction, pred *ssa.BasicBlo
 			bv := u.val(st, fr, b)
 			clo.Bindings = append(clo.Bindings, bv)
 			if bv.Cell == nil && bv.Tuple == nil {
+				u.chanLeak(st, bv.T)
 				fnm := fmt.Sprintf("clobind%d_%s", i, bv.T.Sort)
 				fnm = sanitize(fnm)
 				u.Fun(fnm, []Sort{SV}, bv.T.Sort)
